@@ -197,12 +197,15 @@ def setup_profile():
             break
         pf.set_fit_params(params)
 
-    print("\nSelect range type (absolute or relative):")
+    print("\nSelect range type (absolute or relative cp):")
     while True:
         rt = input("(currently '{}'): ".format(pf["range_type"]))
         if rt:
-            if rt not in ["absolute", "relative"]:
-                print("Please choose 'absolute' or 'relative'.")
+            if rt == "relative":
+                # name of this range type in `IndentationFitter`
+                rt = "relative cp"
+            if rt not in ["absolute", "relative cp"]:
+                print("Please choose 'absolute' or 'relative cp'.")
                 continue
             pf["range_type"] = rt
         break
@@ -213,7 +216,7 @@ def setup_profile():
     if left:
         ival[0] = float(left)
     right = input("right [µm] (currently '{}'): ".format(ival[1]))
-    if left:
+    if right:
         ival[1] = float(right)
     pf["range_x"] = list(ival*1e-6)
 
